@@ -187,6 +187,11 @@ class TaskScheduler(object):
 
     def _continue_with_task(self, task):
         task._resume_contexts()
+        if task.is_computed():
+            # A context's resume() raised: the error has been stored in the task (the tasks
+            # awaiting it will receive it) and its generator is closed; there is nothing to
+            # continue - going on would raise FutureIsAlreadyComputed out of the scheduler.
+            return 0
         old_task = self.active_task
         self.active_task = task
 
